@@ -94,3 +94,37 @@ def good_modattr(name):
     if not hasattr(mod, 'get_parser'):
         raise ImportError(name)
     return mod.get_parser
+
+
+def bad_strip(names):
+    names2 = [n for n in names if n]
+    r = []
+    for n in names2:
+        r.append(n)
+        r.append(', ')
+    del r[-1]                      # T9: names2 may be empty
+    return r
+
+
+def good_strip(names):
+    names2 = [n for n in names if n]
+    if not names2:
+        return []
+    r = []
+    for n in names2:
+        r.append(n)
+        r.append(', ')
+    del r[-1]
+    return r
+
+
+def stale_strip(names):
+    if not names:
+        return []
+    names = [n for n in names if n]
+    r = []
+    for n in names:
+        r.append(n)
+        r.append(', ')
+    del r[-1]                      # T9: the test is about the value before the re-binding
+    return r
